@@ -21,6 +21,7 @@ RULE += ' A fifth of the random ranges start between 1950 and 1969.'
 RULE += ' Clocks with the other three flag combinations are run once at the start of every shard; a quarter of all shards run with calendar.setfirstweekday(SUNDAY).'
 RULE += ' Round 11: before the valid requests the process has had a reversed range and an unknown weekday refused.'
 RULE += ' Round 12: every other shard builds its schedules and clocks with logging enabled down to DEBUG.'
+RULE += " Round 13: the session's rebalance_schedule is read again after run() and must still be the schedule of its range."
 ASSUMPTIONS = ['UTC timestamps; end time-of-day not before the start\'s (the quantifier)']
 EXHAUSTIVE = {'thorough': 'all (start date in 2019-12-01..2024-03-31) x (start 00:00|14:30) x (length 0..45 d) x '
                           '(5 weekdays x 2 flags + daily x 2 + end-of-month x 2 + buy-and-hold)'}
